@@ -69,6 +69,8 @@ class C18(Property):
         lay = rnd.choice(list(mg.layouts(len(a["dims"]))))
         b = dict(a, **lay) if rnd.random() < 0.7 else dict(a)
         specs = ["FLEX", "NONE", "A", "A2", "B", "nomask", "empty"]
+        if rnd.random() < 0.02:
+            return dict(kind=kind, broadcast=[rnd.randint(2, 4), rnd.randint(2, 4)])
         return dict(kind=kind, a=a, b=b, prod=rnd.choice(specs), cons=rnd.choice(specs), cons_grid_unset=rnd.random() < 0.15,
                     prod_grid_unset=rnd.random() < 0.1, seed=seed)
 
@@ -188,6 +190,25 @@ class C18(Property):
             out.count("prepare_flat_F_order")
 
     def _accept(self, out, spec):
+        if spec.get("broadcast"):
+            # a consumer that leaves its grid open declares a mask of another shape that merely *broadcasts* to the
+            # producer's mask (one row/column flag per line): not an equal mask
+            n, m = spec["broadcast"]
+            flags = (np.arange(n) % 2 == 0)
+            pmask = np.repeat(flags[:, None], m, axis=1)
+            pinfo = fm.Info(time=slots.T0, grid=fm.UniformGrid((n + 1, m + 1)), units="m", mask=pmask)
+            cinfo = fm.Info(time=slots.T0, grid=None, units="m", mask=flags[:, None].copy())
+            out.count("broadcastable_masks")
+            out.key = "bc:" + repr(spec["broadcast"])
+            for got, side in ((cinfo.accepts(pinfo, {}), "consumer"), (pinfo.accepts(cinfo, {}, incoming_donwstream=True), "producer")):
+                if got:
+                    out.viol("accepts_table", f"Info.accepts ({side} side) takes a {flags[:, None].shape} mask as equal to the producer's {pmask.shape} mask", spec=spec)
+            try:
+                slots.simple_link(pinfo, cinfo)
+                out.viol("connect_table", "metadata exchange accepted a fixed consumer mask of another shape", spec=spec)
+            except fm.FinamMetaDataError:
+                pass
+            return
         a, b = spec["a"], spec["b"]
         ga, gb = mg.make_grid(a), mg.make_grid(b)
 
@@ -234,6 +255,19 @@ class C18(Property):
         tag = f"producer {spec['prod']} -> consumer {spec['cons']} (layouts {'equal' if a == b else 'differ'}, cons_grid_unset={cons_unset}, prod_grid_unset={prod_unset})"
         if expect is None:
             out.notes.append("observed: NONE consumer vs explicit all-False producer mask -> accepts=%s" % got_down)
+            # whether such a producer counts as 'unmasked' is left open; but if the link is made, the consumer that demanded
+            # unmasked data must get plain arrays
+            try:
+                o, (inp,) = slots.simple_link(pinfo, cinfo)
+            except fm.FinamMetaDataError:
+                o = None
+                out.count("none_consumer_refuses_explicit_empty_mask")
+            if o is not None:
+                o.push_data(np.zeros(tuple(ga.data_shape)), slots.T0)
+                got = inp.pull_data(slots.T0)
+                out.count("none_consumer_links_with_explicit_empty_mask")
+                if np.ma.isMaskedArray(got.magnitude):
+                    out.viol("none_consumer_received_masked", f"{tag}: the link was made and the consumer demanding unmasked data received a masked array", spec=spec)
         else:
             # with an unset producer grid the consumer-side test is only meaningful after the
             # output has taken over the consumer's grid, i.e. in the real exchange below
@@ -260,7 +294,7 @@ class C18(Property):
 
     def coverage_gaps(self, counters, tier):
         need = ["compressions", "expansions", "prepare_calls", "prepare_flat_F_order", "accepts_calls", "link_exchanges",
-                "accept_expected_true", "accept_expected_false", "fixed_vs_fixed_relayout", "fixed_vs_fixed_grid_unset", "refused_mask_updates"]
+                "accept_expected_true", "accept_expected_false", "fixed_vs_fixed_relayout", "fixed_vs_fixed_grid_unset", "refused_mask_updates", "broadcastable_masks"]
         return [f"{k} never observed" for k in need if not counters.get(k)]
 
 
